@@ -26,6 +26,8 @@ type SimWriter struct {
 	AfterFail  int
 	StringCall int
 	Sizes      []int
+	// FullWithErr counts failing calls that reported n == len(p) with the error
+	FullWithErr int
 }
 
 func (w *SimWriter) write(p []byte) (int, error) {
@@ -48,6 +50,10 @@ func (w *SimWriter) write(p []byte) (int, error) {
 			}
 			if n == len(p) && n > 0 {
 				n = len(p) - 1
+			}
+			if w.scn.Full {
+				n = len(p)
+				w.FullWithErr++
 			}
 			w.Buf = append(w.Buf, p[:n]...)
 			return n, errWriteFirst
